@@ -871,6 +871,8 @@ MessageReceivedFromGateway(const MessageRef & msgRef, void * userData)
    }
    else
    {
+      if (muscleInRange(msg.what, (uint32)BEGIN_PR_RESULTS, (uint32)END_PR_RESULTS)) return;  // as documented in StorageReflectConstants.h: clients aren't allowed to send PR_RESULT_* Messages, so we silently drop them rather than relaying a forged "server notice" to other clients
+
       // New for v1.85; if the message has a PR_NAME_SESSION field in it, make sure it's the correct one!
       // This is to foil certain people (olorin ;^)) who would otherwise be spoofing messages from other people.
       (void) msg.ReplaceString(false, PR_NAME_SESSION, GetSessionIDString());
